@@ -888,3 +888,46 @@ V("C24-relay-target-unvalidated","C24",PU+"streamer.go","""		p.target = &validat
 V("C24-auth-skipped-for-split","C24","pkg/core/object/fmt.go","""		if !isEC {
 			if err := icrypto.AuthenticateObject(""","""		if !isEC && !firstSet {
 			if err := icrypto.AuthenticateObject(""",rule="C24.R5")
+
+# ---- C26
+PO="pkg/services/policer/"
+V("C26-cached-holder-counts","C26",PO+"check.go","""				if status > 0 {
+					candidates = append(candidates, nodes[i])
+				}
+
+				continue""","""				if status > 0 {
+					candidates = append(candidates, nodes[i])
+				} else {
+					shortage--
+				}
+
+				continue""",rule="C26.R2")
+V("C26-maintenance-as-confirmed","C26",PO+"check.go","		plc.checkedNodes.submitAssumedReplicaHolder(node)","		plc.checkedNodes.submitReplicaHolder(node)",rule="C26.R2")
+V("C26-holder-test-counts-assumed","C26",PO+"check.go","""		if v {
+			if _, ok := n.assumed[k]; !ok {
+				return true
+			}
+		}""","""		if v || k == 0 {
+			return true
+		}""",rule="C26.R2")
+V("C26-ec-drop-after-failed-move","C26",PO+"ec.go","""	if repRes.done {
+		p.metrics.IncPolicerObjectReplicated(true)
+		p.log.Info("EC part successfully moved to more optimal node, drop",""","""	if repRes.done || len(candidates) > 1 {
+		p.metrics.IncPolicerObjectReplicated(true)
+		p.log.Info("EC part successfully moved to more optimal node, drop",""",rule="C26.R1")
+V("C26-ec-maintenance-ignored","C26",PO+"ec.go","""	if maintenance {
+		// same as for REP rules""","""	if maintenance && len(candidates) == 0 {
+		// same as for REP rules""",rule="C26.R1")
+V("C26-offcontainer-drop-without-holder","C26",PO+"check.go","""			if !c.checkedNodes.atLeastOneHolder() {""","""			if !c.checkedNodes.atLeastOneHolder() && len(repRules) > 1 {""",rule="C26.R3")
+V("C26-delete-on-any-placement-error","C26",PO+"check.go","		if containercore.IsErrNotFound(err) {","		if containercore.IsErrNotFound(err) || isEC {",rule="C26.R4")
+V("C26-head-error-counts","C26",PO+"check.go","""			} else if err != nil {
+				p.log.Error("receive object header to check policy compliance",
+					zap.Stringer("object", plc.object.Address),
+					zap.Error(err),
+				)
+			} else {""","""			} else if err != nil && !errors.Is(err, context.DeadlineExceeded) {
+				p.log.Error("receive object header to check policy compliance",
+					zap.Stringer("object", plc.object.Address),
+					zap.Error(err),
+				)
+			} else {""",rule="C26.R2")
